@@ -55,12 +55,25 @@ fn finite_big() -> BoxedStrategy<Fl> {
 }
 
 fn finite_box() -> BoxedStrategy<(Fl, Fl)> {
-    (finite_big(), finite_big(), any::<bool>())
-        .prop_map(|(a, b, degenerate)| {
-            let (lo, hi) = if a.0 <= b.0 { (a, b) } else { (b, a) };
-            if degenerate { (lo, lo) } else { (lo, hi) }
-        })
-        .boxed()
+    let wide = (finite_big(), finite_big(), any::<bool>()).prop_map(|(a, b, degenerate)| {
+        let (lo, hi) = if a.0 <= b.0 { (a, b) } else { (b, a) };
+        if degenerate { (lo, lo) } else { (lo, hi) }
+    });
+    // narrow boxes (a few ulps wide) at any magnitude: quadrant and rounding
+    // logic at large arguments
+    let narrow = (gens::fl_log(), 0u32..=6).prop_map(|(c, k)| {
+        let lo = c.0;
+        let mut hi = lo;
+        for _ in 0..k {
+            hi = if hi >= 0.0 {
+                f32::from_bits(hi.to_bits() + 1)
+            } else {
+                f32::from_bits(hi.to_bits() - 1)
+            };
+        }
+        if hi.is_finite() && lo <= hi { (Fl(lo), Fl(hi)) } else { (Fl(lo), Fl(lo)) }
+    });
+    prop_oneof![3 => wide, 1 => narrow].boxed()
 }
 
 fn valid_interval(i: Interval) -> bool {
